@@ -139,6 +139,11 @@ func vmRunInline(c *Ctx) func(callee *vmFn, call *ast.CallExpr) bool {
 				})
 				return found
 			}
+		case *ast.SelectorExpr:
+			// any read of the handler stack (`handlers := core.ExceptionCatchLabels` in a helper)
+			if s := fn.info.Selections[x]; s != nil && s.Obj() == handlers {
+				return true
+			}
 		case *ast.CallExpr:
 			if _, isPoll := polls[vmOrigin(CalleeOf(fn.info, x))]; isPoll {
 				return true
